@@ -68,7 +68,7 @@ Proof. exact rename_taken_noop_all. Qed.
 Print Assumptions C19_rename_taken_noop.
 
 (** a handle whose model is not registered any more cannot change anything
-    (the pinned tree violated this — finding stale_handle — repaired in /repo ddd7fb8) *)
+    (the pinned tree violated this — finding stale_handle — repaired in /repo 4f69f1f) *)
 Theorem C19_stale_handle : forall cm cb ops h o,
   let s := run (init cm cb) ops in
   ~ registered s h -> (o = Close h \/ exists new ro, o = Rename h new ro) \/ (exists slot, o = Write h slot) ->
